@@ -99,3 +99,21 @@
        (forall ((c Int)) (! (=> (elemMark (select F_condition_ex c))
                                 (okelem Cell_stack Mem_Val F_nodeConfig_typ F_nodeConfig_cap F_nodeConfig_log F_condition_cfg alloc (select F_condition_ex c)))
                             :pattern ((elemMark (select F_condition_ex c)))))))
+(define-fun okelemW ((Cell_stack (Array Int Slice)) (Mem_Val (Array Int (Array Int Val))) (F_nodeConfig_typ (Array Int (_ BitVec 8)))
+                    (F_nodeConfig_cap (Array Int Int)) (F_nodeConfig_log (Array Int Int)) (F_condition_cfg (Array Int Int)) (alloc Int) (v Val)) Bool
+  (and (okval v alloc)
+       (=> (and (isStackLike v) (not (= (stackOf v) 0))) (wf Cell_stack Mem_Val F_nodeConfig_typ F_nodeConfig_cap F_nodeConfig_log alloc (stackOf v)))
+       (=> (and (isCondLike v) (not (= (condOf v) 0))) (cwf F_condition_cfg F_nodeConfig_typ F_nodeConfig_log alloc (condOf v)))))
+; ---- domain of the Unmarshal contracts (C04): no unmarshal policies; the elements of every stack and the
+; expression of every condition are well formed (quantified over stack references, so that freshly
+; allocated output arrays are not constrained)
+(define-fun udom ((Cell_stack (Array Int Slice)) (Mem_Val (Array Int (Array Int Val))) (F_nodeConfig_typ (Array Int (_ BitVec 8)))
+                  (F_nodeConfig_cap (Array Int Int)) (F_nodeConfig_log (Array Int Int)) (F_condition_cfg (Array Int Int))
+                  (F_condition_ex (Array Int Val)) (F_nodeConfig_umf (Array Int Int)) (alloc Int)) Bool
+  (and (forall ((g Int)) (! (= (select F_nodeConfig_umf g) 0) :pattern ((select F_nodeConfig_umf g))))
+       (forall ((s Int) (k Int)) (! (=> (and (<= 1 k) (< k (s-len (select Cell_stack s))))
+                                        (okelemW Cell_stack Mem_Val F_nodeConfig_typ F_nodeConfig_cap F_nodeConfig_log F_condition_cfg alloc
+                                                 (select (select Mem_Val (s-arr (select Cell_stack s))) k)))
+                            :pattern ((select (select Mem_Val (s-arr (select Cell_stack s))) k))))
+       (forall ((c Int)) (! (okelemW Cell_stack Mem_Val F_nodeConfig_typ F_nodeConfig_cap F_nodeConfig_log F_condition_cfg alloc (select F_condition_ex c))
+                            :pattern ((select F_condition_ex c))))))
